@@ -27,6 +27,10 @@ class SimTask(_PyTask):     # type: ignore[misc,valid-type]
         else:
             self._sim_hash = id(self) >> 4
         super().__init__(coro, loop=loop, name=name, context=context, **kw)
+        if w is not None:
+            qn = getattr(coro, '__qualname__', '')
+            if not qn.endswith('handle_events'):
+                w.long_tasks.append((qn, self))
 
     def __hash__(self) -> int:
         return self._sim_hash
